@@ -181,6 +181,8 @@ class Gen:
             return self.template_output_becomes_dir()
         if t < 0.6:
             return self.template_listing_in_failing()
+        if t < 0.72:
+            return self.template_rewrite_after_nested()
         d1, d2 = r.sample(NAMES[:4], 2)
         deep = [d1, d2, "in"] if r.random() < 0.6 else [d1, "in"]
         outer = [d1, "out"] if r.random() < 0.7 else [d2 + "x", "out"]
@@ -272,6 +274,37 @@ class Gen:
         if r.random() < 0.4:
             hist.append(["clean", None])
         self.outputs = [P, P + ["x"]]
+        self.inputs = []
+        return {"cache": ["cache"], "name": "n", "funcs": funcs, "history": hist}
+
+    def template_rewrite_after_nested(self):
+        """a function writes its target, makes a nested call whose cached record mentions that target, and
+        rewrites the target afterwards; a reader depends on the target; the history flips two flags
+        (the shape of defect D15: nothing may be remembered about a target that is still being built)"""
+        r = self.r
+        cmp_ = "HASH" if r.random() < 0.7 else "METADATA"
+        P, Q, R = ["p"], [r.choice(["q", "s"])], ["r"]
+        if r.random() < 0.3:
+            P, Q, R = ["o", "p"], ["o", "q"], ["r"]
+        F1, F2 = ["flag1"], ["flag2"]
+        first, second = r.choice([("X", "B"), ("same", "same2"), ("ab", "ba")])
+        reader = r.choice([["ask", "c", "read", P, cmp_], ["ask", "c", "read", P, "HASH"], ["ask", "c", "get_size", P]])
+        nested_kind = r.choice(["build_file", "subbuild"])
+        funcs = {
+            "fp": {"*": [["write", ["lit", "A"]], ["ret", ["lit", 0]]]},
+            "fq": {"*": [["build_file", "x", P, cmp_, "fp", [], {}], ["write", ["lit", "Q"]], ["ret", ["lit", 0]]]},
+            "sq": {"*": [["build_file", "x", P, cmp_, "fp", [], {}], ["ask", "z", "exists", P], ["ret", ["digest", ["z"]]]]},
+            "fr": {"*": [reader, ["write", ["digest", ["c"]]], ["ret", ["lit", 0]]]},
+        }
+        nested = [["build_file", "y", Q, cmp_, "fq", [], {}]] if nested_kind == "build_file" else [["subbuild", "y", "sq", [], {}]]
+        funcs["fp3"] = {"*": [["write", ["lit", first]]] + nested + [["ask", "e", "exists", F2],
+                              ["if", ["true", "e"], [["write", ["lit", second]]], []], ["ret", ["lit", 0]]]}
+        main = [["ask", "f1", "exists", F1],
+                ["if", ["true", "f1"], nested, [["build_file", "b", P, cmp_, "fp3", [], {}], ["build_file", "rr", R, cmp_, "fr", [], {}]]],
+                ["ret", ["lit", 0]]]
+        hist = [["mutate", [["write", F1, ""], ["write", F2, ""]]], ["build", {}, main], ["mutate", [["rm", F1]]], ["build", {}, main],
+                ["mutate", [["rm", F2]]], ["build", {}, main], ["build", {}, main]]
+        self.outputs = [P, Q, R]
         self.inputs = []
         return {"cache": ["cache"], "name": "n", "funcs": funcs, "history": hist}
 
